@@ -678,10 +678,69 @@ package go_clipper2
 //@   props C03
 //@   panicfree
 
+// Offset join construction: every index expression in range when there is one normal per vertex.
+// The variable-delta callback receives pointers to the path and the normals and could resize them;
+// these contracts cover the engines without a callback (the assumption is listed).
+//@ spec joinArgs(co *ClipperOffset, path Path64, j int, k int) bool = 0 <= j && j < len(path) && 0 <= k && k < len(path) && len(co.normals) == len(path)
+
+//@ func ClipperOffset.doBevel
+//@   props C03 C05 C10
+//@   panicfree
+//@   requires joinArgs(co, path, j, k)
+
+//@ func ClipperOffset.doMiter
+//@   props C03 C05
+//@   panicfree
+//@   requires joinArgs(co, path, j, k)
+
+//@ func ClipperOffset.doSquare
+//@   props C03 C05 C10
+//@   panicfree
+//@   requires joinArgs(co, path, j, k)
+
+//@ func ClipperOffset.doRound
+//@   props C03 C05 C10
+//@   panicfree
+//@   requires joinArgs(co, path, j, k)
+//@   assumes co.deltaCallback == nil
+
+//@ func ClipperOffset.offsetPoint
+//@   props C03 C05 C10
+//@   panicfree
+//@   requires group != nil && joinArgs(co, path, j, *k)
+//@   assumes co.deltaCallback == nil
+//@   ensures [moves-on] (*k == j || *k == old(*k)) && len(co.normals) == len(path)
+
+//@ func ClipperOffset.offsetPolygon
+//@   props C03 C05
+//@   panicfree
+//@   requires group != nil && len(co.normals) == len(path)
+//@   assumes co.deltaCallback == nil
+//@   loop 0 invariant [walk] 0 <= i && i <= cnt && cnt == len(path) && (cnt == 0 || (0 <= prev && prev < cnt)) && len(co.normals) == len(path) && co.deltaCallback == nil
+//@   ensures [normals-kept] len(co.normals) == len(path)
+
 //@ func ClipperOffset.offsetOpenJoined
+//@   props C03 C05 C10
+//@   panicfree
+//@   requires group != nil && len(co.normals) == len(path)
+//@   requires forall(k, 0, len(path), dom(path[k], 29))
+//@   assumes co.deltaCallback == nil
+
+//@ func ClipperOffset.offsetOpenPath
+//@   props C03 C10
+//@   panicfree
+//@   requires group != nil && len(path) >= 1 && len(co.normals) == len(path)
+//@   assumes co.deltaCallback == nil
+//@   loop 0 invariant [forward] 1 <= i && highI == len(path) - 1 && 0 <= k && k < len(path) && len(co.normals) == len(path) && co.deltaCallback == nil
+//@   loop 1 invariant [turn-normals] 0 <= i && i <= highI && highI == len(path) - 1 && len(co.normals) == len(path)
+//@   loop 2 invariant [backward] i <= highI - 1 && highI == len(path) - 1 && 0 <= k && k < len(path) && len(co.normals) == len(path) && co.deltaCallback == nil
+
+//@ func ClipperOffset.doGroupOffset variant total
 //@   props C03
 //@   panicfree
-//@   requires forall(k, 0, len(path), dom(path[k], 29))
+//@   requires group != nil
+//@   assumes co.deltaCallback == nil && forall(k, 0, len(group.inPaths), domPath(group.inPaths[k], 29))
+//@   loop 0 invariant [paths] co.deltaCallback == nil
 
 //@ func Ellipse64
 //@   props C03
@@ -1251,10 +1310,15 @@ package go_clipper2
 //@   ensures [each] forall(k, 0, len(path)-1, co.normals[k] == getUnitNormal(path[k], path[k+1]))
 //@   ensures [closing] len(path) > 0 ==> co.normals[len(path)-1] == getUnitNormal(path[len(path)-1], path[0])
 
-//@ func ClipperOffset.getPerpendic
+//@ func ClipperOffset.getPerpendic variant inrange
 //@   props C05 C10 C03
 //@   requires absI(pt.X) <= pow2(52) && absI(pt.Y) <= pow2(52) && absI(norm.X*co.groupDelta) <= 4503599627370496.0 && absI(norm.Y*co.groupDelta) <= 4503599627370496.0
 //@   ensures [within-half] absI(toReal(result.X) - (toReal(pt.X) + norm.X*co.groupDelta)) <= 0.5 && absI(toReal(result.Y) - (toReal(pt.Y) + norm.Y*co.groupDelta)) <= 0.5
+
+//@ func ClipperOffset.getPerpendic
+//@   props C05 C10 C03
+//@   panicfree
+//@   ensures [within-half-when-in-range] (absI(pt.X) <= pow2(52) && absI(pt.Y) <= pow2(52) && absI(norm.X*co.groupDelta) <= 4503599627370496.0 && absI(norm.Y*co.groupDelta) <= 4503599627370496.0) ==> (absI(toReal(result.X) - (toReal(pt.X) + norm.X*co.groupDelta)) <= 0.5 && absI(toReal(result.Y) - (toReal(pt.Y) + norm.Y*co.groupDelta)) <= 0.5)
 
 //@ func NewClipperOffset
 //@   props C05 C07 C03
@@ -1274,7 +1338,7 @@ package go_clipper2
 //@   ensures [empty] len(paths) == 0 ==> same(co.groupList, old(co.groupList))
 //@   ensures [appended] len(paths) > 0 ==> (len(co.groupList) == old(len(co.groupList)) + 1 && co.groupList[len(co.groupList)-1] != nil && co.groupList[len(co.groupList)-1].joinType == joinType && co.groupList[len(co.groupList)-1].endType == endType)
 
-//@ func ClipperOffset.doBevel
+//@ func ClipperOffset.doBevel variant formula
 //@   props C05 C10
 //@   nosafety
 //@   requires 0 <= j && j < len(path) && 0 <= k && k < len(path) && len(co.normals) == len(path)
@@ -1283,7 +1347,7 @@ package go_clipper2
 //@   ensures [end-cap] j == k ==> (co.pathOut[len(co.pathOut)-2].X == truncF(toReal(path[j].X) - absI(co.groupDelta)*co.normals[j].X) && co.pathOut[len(co.pathOut)-1].X == truncF(toReal(path[j].X) + absI(co.groupDelta)*co.normals[j].X) && co.pathOut[len(co.pathOut)-2].Y == truncF(toReal(path[j].Y) - absI(co.groupDelta)*co.normals[j].Y) && co.pathOut[len(co.pathOut)-1].Y == truncF(toReal(path[j].Y) + absI(co.groupDelta)*co.normals[j].Y))
 //@   ensures [join] j != k ==> (co.pathOut[len(co.pathOut)-2].X == truncF(toReal(path[j].X) + co.groupDelta*co.normals[k].X) && co.pathOut[len(co.pathOut)-1].X == truncF(toReal(path[j].X) + co.groupDelta*co.normals[j].X) && co.pathOut[len(co.pathOut)-2].Y == truncF(toReal(path[j].Y) + co.groupDelta*co.normals[k].Y) && co.pathOut[len(co.pathOut)-1].Y == truncF(toReal(path[j].Y) + co.groupDelta*co.normals[j].Y))
 
-//@ func ClipperOffset.doMiter
+//@ func ClipperOffset.doMiter variant formula
 //@   props C05
 //@   nosafety
 //@   requires 0 <= j && j < len(path) && 0 <= k && k < len(path) && len(co.normals) == len(path) && cosA > -1
@@ -1382,6 +1446,17 @@ package go_clipper2
 //@   ensures [entry-marked] outrec.pts != nil ==> outrec.pts.outrec == outrec
 //@   ensures [only-to-outrec] forallp(x, OutPt, x.outrec == old(x.outrec) || x.outrec == outrec)
 //@   ensures [frame] outrec.pts == old(outrec.pts)
+
+// doSplitOp replaces the two crossing edges' shared stretch by the crossing point: the node it
+// splices in never repeats the vertex before or after it (C02: no two consecutive equal vertices)
+//@ func clipperBase.doSplitOp
+//@   props C02
+//@   nosafety
+//@   requires outrec != nil && splitOp != nil && splitOp.prev != nil && splitOp.next != nil && splitOp.next.next != nil
+//@   requires splitOp.prev != splitOp && splitOp.prev != splitOp.next && splitOp.next != splitOp && splitOp.next.next != splitOp && splitOp.next.next != splitOp.next && splitOp.next.next != splitOp.prev
+//@   assumes dom(splitOp.prev.pt, 29) && dom(splitOp.pt, 29) && dom(splitOp.next.pt, 29) && dom(splitOp.next.next.pt, 29)
+//@   ensures [splice-adds-no-duplicate-vertex] outrec.pts != nil ==> (old(splitOp.prev).next == old(splitOp.next.next) || (old(splitOp.prev).next.pt != old(splitOp.prev).pt && old(splitOp.prev).next.pt != old(splitOp.next.next).pt && old(splitOp.prev).next.next == old(splitOp.next.next)))
+//@   ensures [ring-closed-at-the-splice] outrec.pts != nil ==> (old(splitOp.next.next).prev == old(splitOp.prev).next || old(splitOp.next.next).prev == old(splitOp.prev))
 
 //@ func clipperBase.processHorzJoins
 //@   props C02 C17 C04
